@@ -760,6 +760,15 @@ def rule_siblings(env, shared):
             # `c.then_some(v)` is None or Some(v), like the match it replaces (the condition is judged by ENDGUARD / COMPLETE)
             if x[0] == "call" and x[1] == "bool::then_some" and len(x[2]) == 2:
                 return ("phi", (("agg", "std::option::Option::None", ()), ("agg", "std::option::Option::Some", (x[2][1],))))
+            # the rest of the source as a reservation amount: `L - c` under the guard c < L is saturating_sub(L, c)
+            if x[0] == "atomic" and x[1] == "fetch_add" and len(x) > 3:
+                def ss(y):
+                    if y[0] == "bin" and y[1] == "Sub":
+                        return ("call", "saturating_sub", (y[2], y[3]))
+                    return None
+                na = tuple(r_m1.rewrite(a_, ss) if isinstance(a_, tuple) and a_ and isinstance(a_[0], str) else a_ for a_ in x[3])
+                if na != x[3]:
+                    return x[:3] + (na,) + x[4:]
             # `0 | L - c` is the two-armed spelling of saturating_sub(L, c) (the guard of the arms is judged by LEN / OVF)
             if x[0] == "phi" and len(x[1]) == 2 and ("int", 0) in x[1]:
                 o = [y for y in x[1] if y != ("int", 0)]
